@@ -239,6 +239,11 @@ def hex_malformed_cases(rng, tier):
                 cases.append("parse %s %s %s" % (v, mode, hx(d)))
             if all(c < 128 for c in d):
                 cases.append("fromstr %s %s" % (v, hx(d)))
+        # from_str_with(&str, explicit / automatic mode) on well-formed and affixed strings (ASCII)
+        for d in [good, good[2:], good.lower()] + affixed(good):
+            if all(c < 128 for c in d):
+                for mode in ("auto", "with", "empty"):
+                    cases.append("fromstrm %s %s %s" % (v, mode, hx(d)))
         # two adjacent damaged characters (aligned and unaligned pairs) at every position
         for pos in range(ls - 1):
             for a, b in ((0x40, 0x40), (0x7A, 0x7A), (0xFF, 0x80), (0x67, 0x47), (0x2F, 0x3A), (0x00, 0x00),
@@ -343,6 +348,12 @@ def hex_buffer_cases(rng, tier):
                 cases.append("fmt %s %s with %s" % (v, hx(b), hx(rng.bytes(ls + extra))))
                 cases.append("fmt %s %s empty %s" % (v, hx(b), hx(rng.bytes(ls - 2 + extra))))
                 cases.append("storebytes %s %s %s" % (v, hx(b), hx(rng.bytes(size + extra))))
+        # every start alignment of the destination (offsets 0..16 into an aligned arena), both prefixes, a few excess sizes
+        b = plausible_bin(rng, v)
+        for off in range(0, 17):
+            for extra in (0, 1, 7):
+                cases.append("fmto %s %s with %d %s" % (v, hx(b), off, hx(rng.bytes(ls + extra))))
+                cases.append("fmto %s %s empty %d %s" % (v, hx(b), off, hx(rng.bytes(ls - 2 + extra))))
         # much larger buffers: around every power of two up to 64 KiB (a length that is reduced modulo something, a block-wise
         # encoder, an alignment-dependent path)
         b = plausible_bin(rng, v)
